@@ -338,6 +338,14 @@ impl<T: Elem> World<T> {
         }
     }
 
+    /// instance obtained from a constructor that accepted a violated precondition (only memory oracles apply to it)
+    fn is_ill(&self, r: InstRef) -> bool {
+        match r {
+            InstRef::Shared(i) => self.case.insts.get(i as usize).map(|d| d.spec.is_ill()).unwrap_or(false),
+            InstRef::Local(_) => false,
+        }
+    }
+
     fn set_inside(&self, t: &TCtx<T>, inst: Option<u32>) {
         if let Some(s) = &self.sched {
             s.set_inside(t.tid, inst);
@@ -509,6 +517,11 @@ impl<T: Elem> World<T> {
             self.count("fault.scratch.len", 1);
         }
         self.check_memory(t, &res, &what);
+        if self.is_ill(*inst) {
+            self.count("op.call.on-ill-constructed", 1);
+            t.log.add(res.out.is_ok() as u64);
+            return;
+        }
         let well = n > 0 && total > 0;
         match (&res.out, &reference) {
             (Ok(o), Ok(r)) => {
@@ -636,6 +649,13 @@ impl<T: Elem> World<T> {
             InstRef::Shared(i) => *i as u32,
             InstRef::Local(i) => 1000 + *i as u32,
         };
+        if self.is_ill(*inst) {
+            let res = self.shaped_call(t, &fft, *entry, &x, ol, sl, *place, inst_id);
+            self.check_memory(t, &res, "ill-shaped call on an ill-constructed instance");
+            self.count("op.call.on-ill-constructed", 1);
+            t.log.add(res.out.is_ok() as u64);
+            return;
+        }
         let rf = self.reference(t, *inst).unwrap_or_else(|| Arc::clone(&fft));
         self.judge_shape(t, &fft, &rf, *entry, &x, ol, sl, *place, inst_id);
     }
@@ -646,6 +666,10 @@ impl<T: Elem> World<T> {
             self.count("skipped.no-instance", 1);
             return;
         };
+        if self.is_ill(*inst) {
+            self.count("skipped.shapegrid-on-ill-constructed", 1);
+            return;
+        }
         let rf = self.reference(t, *inst).unwrap_or_else(|| Arc::clone(&fft));
         let n = fft.len();
         let adv = advertised(&fft, *entry);
@@ -1197,6 +1221,12 @@ fn build_world<T: Elem>(case: &Case, sched: Option<Arc<Sched>>) -> World<T> {
             }
         }));
         match r {
+            Ok(Ok(f)) if d.spec.is_ill() => {
+                // the constructor accepted a violated precondition: nothing is demanded of its numbers any more, but every
+                // call on it must still stay inside the caller's buffers (C03 memory oracles only)
+                w.count("fault.ctor.precondition.accepted", 1);
+                w.insts.push(Some(f))
+            }
             Ok(Ok(f)) => {
                 if f.len() != d.spec.len() || Dir::from(f.fft_direction()) != d.dir {
                     w.report_at(-1, i as i32, &format!("{}.len-dir", w.prefix), format!("{} {:?}: built instance reports len={} {:?}", d.spec.short(), d.dir, f.len(), f.fft_direction()));
@@ -1205,6 +1235,10 @@ fn build_world<T: Elem>(case: &Case, sched: Option<Arc<Sched>>) -> World<T> {
             }
             Ok(Err(why)) => {
                 w.count(&format!("skipped.build.{}", why.split(' ').next().unwrap_or("")), 1);
+                w.insts.push(None);
+            }
+            Err(_) if d.spec.is_ill() => {
+                w.count("fault.ctor.precondition.panicked", 1);
                 w.insts.push(None);
             }
             Err(p) => {
